@@ -198,19 +198,36 @@ def eval_add_padding(ev: ConstEval, mod, fn: ast.FunctionDef, call: ast.Call, m,
     total = None
     padname = None
     has_assert = False
+    defs = {}
+    for node in ast.walk(fn):
+        if isinstance(node, ast.Assign) and len(node.targets) == 1 and isinstance(node.targets[0], ast.Name):
+            defs.setdefault(node.targets[0].id, []).append(node.value)
+    padcount = None
     for node in ast.walk(fn):
         if isinstance(node, ast.ClassDef) and node.bases:
             base = ev.eval(node.bases[0], mod)
-        elif isinstance(node, ast.Assign) and len(node.targets) == 1 and isinstance(node.targets[0], ast.Name):
-            if node.targets[0].id == "total_num_bytes":
-                total = ev.eval(node.value, mod)
-        elif isinstance(node, ast.Assert):
-            t = node.test
-            if isinstance(t, ast.Compare) and isinstance(t.ops[0], ast.GtE) and src(t.comparators[0]) == "0":
-                has_assert = True
         elif isinstance(node, ast.Tuple) and len(node.elts) == 2 and isinstance(node.elts[1], ast.BinOp) and isinstance(node.elts[1].op, ast.Mult):
             padname = ev.eval(node.elts[0], mod)
             padtype = ev.eval(node.elts[1].left, mod)
+            padcount = node.elts[1].right
+    # the pad count is <total> - <current size>: the total is the minuend (a constant expression, possibly through one local)
+    if isinstance(padcount, ast.Name) and len(defs.get(padcount.id, [])) == 1:
+        padcount_def = defs[padcount.id][0]
+    else:
+        padcount_def = padcount
+    if isinstance(padcount_def, ast.BinOp) and isinstance(padcount_def.op, ast.Sub):
+        minuend = padcount_def.left
+        if isinstance(minuend, ast.Name) and len(defs.get(minuend.id, [])) == 1:
+            minuend = defs[minuend.id][0]
+        try:
+            total = ev.eval(minuend, mod)
+        except Unknown:
+            total = None
+    for node in ast.walk(fn):
+        if isinstance(node, ast.Assert):
+            t = node.test
+            if isinstance(t, ast.Compare) and isinstance(t.ops[0], ast.GtE) and src(t.comparators[0]) == "0" and isinstance(padcount, ast.Name) and src(t.left) == padcount.id:
+                has_assert = True
     if not isinstance(base, CStructRef) or total is None or padname is None:
         raise AnalysisError("encoding.add_padding no longer has the modelled shape")
     bc = struct_class(ev, base)
